@@ -35,3 +35,27 @@ prop("C04", module="MW.Props.C04", title="exchange-rate fairness",
      weights={"stake": 30, "unstake": 15, "submit": 15, "rewards": 8, "advance": 12},
      monitors=["rate"],
      assumptions=["amounts and totals are 128-bit unsigned integers; results are stated for representable results (the checked operation succeeded)"])
+
+prop("C08", module="MW.Props.C08", title="authorization matrix",
+     state_keys=["admin", "config", "state"],
+     weights={"unauthorized": 30, "ownership": 8, "breaker": 4, "resume": 4, "fee_withdraw": 4, "validators": 4,
+              "update_config": 4, "deliver": 8, "rewards": 8, "withdraw": 8, "recover": 6},
+     assumptions=["a failed call persists nothing and dispatches nothing (CosmWasm runtime atomicity, chain model)"])
+
+prop("C10", module="MW.Props.C10", title="circuit breaker",
+     variants=["liquid_stake", "liquid_unstake", "submit_batch", "withdraw", "receive_rewards",
+               "receive_unstaked_tokens", "circuit_breaker", "resume_contract", "instantiate"],
+     state_keys=["config", "state", "batches"],
+     weights={"breaker": 10, "resume": 8, "stake": 14, "unstake": 10, "submit": 10, "withdraw": 10, "deliver": 8, "rewards": 8},
+     profile={"resume_first": 0.5})
+
+prop("C11", module="MW.Props.C11", title="protocol fee accounting",
+     variants=["receive_rewards", "fee_withdraw", "liquid_stake", "update_config"], state_keys=["state"],
+     weights={"rewards": 25, "fee_withdraw": 10, "update_config": 8, "stake": 12, "ack": 8},
+     pure=["multiply_ratio"])
+
+prop("C15", module="MW.Props.C15", title="oracle rates",
+     variants=["liquid_stake", "submit_batch", "withdraw", "receive_rewards", "resume_contract", "update_config"],
+     state_keys=["state"], pure=["decimal_from_ratio"],
+     weights={"stake": 20, "submit": 10, "withdraw": 10, "rewards": 10, "resume": 6, "update_config": 5},
+     assumptions=["Decimal::from_ratio / Display of cosmwasm-std are as modelled (compared on every posted payload and by the pure differential)"])
